@@ -127,6 +127,8 @@ def source_scan(modules=None):
 
 # audited modules whose theorems live in another namespace than their directory suggests
 NAMESPACES = {'Lemmas.MiniPyFuel': 'Bridge.Py',
+              # the regular-expression engine on the patterns of the source = the hand scanners (Appendix F)
+              'Lemmas.RegexPbn': 'Bridge.RegexPbn', 'Lemmas.RegexHands': 'Bridge.RegexHands',
               # the theorem families about the translated THREAD programs live in their own namespaces
               'Translated.ThreadsMainA': 'Bridge.Translated.MainA', 'Translated.ThreadsMainB': 'Bridge.Translated.MainB',
               'Translated.ThreadsSeatB': 'Bridge.Translated.SeatB', 'Translated.ThreadsClientA': 'Bridge.Translated.ClientA',
